@@ -149,6 +149,40 @@ Example restore_example :
   restore false [mkO 7 1 true; mkO 8 3 true] [mkN 7 2 true; mkN 8 3 true; mkN 7 4 false] = [Some [1]; None; None].
 Proof. reflexivity. Qed.
 
+(* the spelling actually written (Counter.most_common: highest count, first seen on ties) is one of them *)
+Theorem T11_7_restore_pick : forall origs news nd c,
+  restore_node origs news nd = Some c ->
+  n_lit nd = true /\
+  exists o, In o origs /\ o_text o = most_common c /\ o_val o = n_val nd /\ o_lit o = true.
+Proof. exact restore_pick_sound. Qed.
+Print Assumptions T11_7_restore_pick.
+
+(* ---- T11.11 / R11.12: the f-string restoration step (_substitute_original_fstrings) ----------- *)
+Theorem T11_11_frestore_sound : forall origs nd r,
+  frestore_node origs nd = Some r ->
+  fn_valid nd = true /\
+  exists o, In o origs /\ fo_text o = r /\ fo_key o = fn_key nd /\ fo_valid o = true.
+Proof. exact frestore_node_sound. Qed.
+Print Assumptions T11_11_frestore_sound.
+
+Theorem T11_11_frestore_same_key : forall (ukey : nat -> option nat) origs news nd r,
+  (forall o, In o origs -> fo_valid o = true -> ukey (fo_text o) = Some (fo_key o)) ->
+  (forall n, In n news -> fn_self n = true -> ukey (fn_text n) = Some (fn_key n)) ->
+  f_guard origs news = true -> In nd news ->
+  frestore_node origs nd = Some r -> ukey r = ukey (fn_text nd).
+Proof. exact frestore_same_key. Qed.
+Print Assumptions T11_11_frestore_same_key.
+
+Theorem R11_12_frestore_guard : exists origs news, f_guard origs news = false.
+Proof. exact frestore_guard_refuted. Qed.
+Print Assumptions R11_12_frestore_guard.
+
+Example frestore_example :
+  frestore [mkFO 5 1 true; mkFO 5 3 true; mkFO 5 3 true] [mkFN 5 2 true true; mkFN 5 1 true true; mkFN 6 4 true true]
+  = [Some 3; None; None]
+  /\ f_guard [mkFO 5 1 true; mkFO 5 3 true; mkFO 5 3 true] [mkFN 5 2 true true; mkFN 5 1 true true] = true.
+Proof. split; reflexivity. Qed.
+
 (* ---- T11.9 / R11.10: the dedent / re-indent frame of fix_line_lengths -------------------------- *)
 (* with the indent computed as the minimum over the lines of the range (as the code does), every non-blank
    line of the range -- in particular every line inside a multi-line literal -- comes back unchanged *)
